@@ -163,7 +163,26 @@ def submaps(env, fam):
 
 KINDS = ["simplify", "substitute", "fv", "atoms", "qf", "types", "theory", "logic", "get_type", "size",
          "smtlib_dag", "smtlib_tree", "serialize", "reparse", "nnf", "aig", "prenex", "build", "const",
-         "bad_substitute", "bad_build", "bad_simplify", "simplify_result", "simplify_around"]
+         "bad_substitute", "bad_build", "bad_simplify", "simplify_result", "simplify_around", "subst_interp"]
+
+N_INTERP = 4      # interpretations of f1 / f2 used by `subst_interp`: j % N_INTERP (the last one: none)
+
+
+def interpretations_of(env, fam, j):
+    """the `interpretations` argument number j: f1(k) = k + 1 | k * 2 | f1 and f2 | nothing"""
+    from pysmt.substituter import FunctionInterpretation
+    m = env.formula_manager
+    INT = types.INT
+    FT = types.FunctionType
+    f1 = m.Symbol("f1", FT(INT, [INT]))
+    f2 = m.Symbol("f2", FT(INT, [INT, INT]))
+    k, k2 = m.Symbol("fp_k", INT), m.Symbol("fp_k2", INT)
+    return [
+        {f1: FunctionInterpretation([k], m.Plus(k, m.Int(1)))},
+        {f1: FunctionInterpretation([k], m.Times(k, m.Int(2)))},
+        {f1: FunctionInterpretation([k], m.Minus(k, m.Int(3))), f2: FunctionInterpretation([k, k2], m.Plus(k, k2))},
+        None,
+    ][j % N_INTERP]
 
 _SCRATCH = {}
 
@@ -256,6 +275,9 @@ def do_call(env, fam, F, maps, call):
         if kind == "simplify_result":
             return g.simplify()
         return m.Or(m.Not(g), fam.pool["b"][1], m.And(g, fam.pool["b"][0])).simplify()
+    if kind == "subst_interp":
+        # substitute with map (j // N_INTERP) and interpretation (j % N_INTERP) of the function symbols
+        return f.substitute(maps[(j // N_INTERP) % len(maps)], interpretations=interpretations_of(env, fam, j))
     if kind == "bad_substitute":      # ill-typed substitution: raises somewhere inside the walk
         Pl = fam.pool
         bad = [{Pl["i"][0]: m.Real(1)}, {Pl["b"][0]: Pl["i"][0]}, {Pl["v"][0]: m.BV(1, 4)}, {Pl["i"][1]: Pl["r"][0]},
@@ -385,6 +407,16 @@ def adversarial(rng):
             out.append(("uf-shared-then-app", [("logic", u(qq), 0)], ("logic", u(h), 0)))
             out.append(("uf-parent-child", [("theory", u(h), 0), ("theory", u(qq), 0), ("logic", u(12), 0)],
                         ("theory", u(23), 0)))
+    # same substitution map, different (or no) interpretation of one function symbol, over shared f(...) sub-terms
+    for h in (3, 4, 11, 12):                  # formulas of the function-symbol block that apply f1 / f2 / fIB
+        for mp in (8, 0, 2):                  # the maps {} , {x: y}, {x: 7}
+            for j1 in range(N_INTERP):
+                for j2 in range(N_INTERP):
+                    if j1 != j2:
+                        out.append(("interp-then-other", [("subst_interp", u(h), j1 + N_INTERP * mp)],
+                                    ("subst_interp", u(h), j2 + N_INTERP * mp)))
+            out.append(("interp-then-plain", [("subst_interp", u(h), 0 + N_INTERP * mp)], ("substitute", u(h), mp)))
+            out.append(("interp-then-plain", [("substitute", u(h), mp)], ("subst_interp", u(h), 1 + N_INTERP * mp)))
     # simplify(f), then simplify of the node it returned (built by construction) -- alone and inside a formula
     nf = lambda j: -N_UF - N_NF + j
     for j in range(N_NF):
